@@ -15,26 +15,43 @@ def qr_r_jvp(primals, tangents):
     """Evaluate the JVP of qr_r.
 
     The difference to JAX's custom JVP for the QR-decomposition
-    is that qr_r does not return Q which removes the linear solve
-    with R from the computation.
-    This is not only cheaper, but also more stable because it makes qr_r
-    differentiable at the origin (which means calling it with the zero matrix).
+    is that qr_r does not return Q and that it remains
+    differentiable at the origin (which means calling it with the zero matrix),
+    and more generally at matrices with vanishing pivots.
     Using the JVP of the full QR decomposition does not have this feature.
 
     Refer to Issue #668 for why we need this.
+
+    Writing M = Q R and differentiating gives R_dot = Q^T M_dot - Omega R
+    with an antisymmetric Omega = Q^T Q_dot. Every choice of Omega yields the
+    correct derivative of R^T R, but only the Omega that keeps R_dot upper
+    triangular yields correct derivatives for code that reads R block-wise
+    or as a triangular matrix (revert_conditional, triangular solves,
+    log-determinants). Columns whose pivot vanishes (where the factorisation
+    is not differentiable) fall back to Omega = 0, i.e. to R_dot = Q^T M_dot.
     """
-    # todo: maybe the QR decomposition should not be differentiable at the origin...
-    #  but what we definitely want is that triangularisation (which calls qr_r) is
-    #  differentiable at the origin. See #668.
-    #  But for now, we don't distinguish between those two cases.
     (M,) = primals
     (M_dot,) = tangents
     Q, R = jnp.linalg.qr(M, mode="reduced")
-
-    # Treat 'Q' as constant, which implies
-    # R = Q^\top M and we get obvious derivatives
     R_dot = Q.T @ M_dot
-    return R, R_dot
+
+    # Omega is determined by the leading square block of R
+    # (R is upper trapezoidal if M has more columns than rows)
+    k = min(M.shape)
+    R1, rhs = R[:, :k], R_dot[:, :k]
+
+    # Columns with a (numerically) vanishing pivot keep Omega = 0
+    pivots = jnp.abs(jnp.diagonal(R1))
+    is_regular = pivots > k * jnp.finfo(R.dtype).eps * jnp.max(pivots)
+    mask = is_regular[:, None] & is_regular[None, :]
+    R1_safe = jnp.where(mask, R1, jnp.eye(k, dtype=R.dtype))
+    rhs = jnp.where(is_regular[None, :], rhs, 0.0)
+
+    # Omega = L - L^T, where L is the strictly lower part of R_dot R^{-1}
+    X = jax.scipy.linalg.solve_triangular(R1_safe, rhs.T, trans=1, lower=False).T
+    L = jnp.where(is_regular[None, :], jnp.tril(X, -1), 0.0)
+    Omega = L - L.T
+    return R, R_dot - Omega @ R
 
 
 def vector_norm(arr, /, *, order=None):
